@@ -289,15 +289,6 @@ def write_output_document(
     docs: List[Merger]
 ) -> None:
     """Save a backup of the overwrite file, if requested."""
-    if args.backup:
-        backup_file = args.overwrite + ".bak"
-        log.verbose(
-            "Saving a backup of {} to {}."
-            .format(args.overwrite, backup_file))
-        if exists(backup_file):
-            remove(backup_file)
-        copy2(args.overwrite, backup_file)
-
     document_is_json = (
         docs[0].prepare_for_dump(yaml_editor, args.output)
         is OutputDocTypes.JSON)
@@ -306,6 +297,17 @@ def write_output_document(
     for doc in docs:
         doc.prepare_for_dump(yaml_editor, args.output)
         dumps.append(doc.data)
+
+    # Prepare the documents first; a result which cannot be expressed in the
+    # output format must not leave a backup file behind.
+    if args.backup:
+        backup_file = args.overwrite + ".bak"
+        log.verbose(
+            "Saving a backup of {} to {}."
+            .format(args.overwrite, backup_file))
+        if exists(backup_file):
+            remove(backup_file)
+        copy2(args.overwrite, backup_file)
 
     if args.output:
         with open(args.output, 'w', encoding='utf-8') as out_fhnd:
